@@ -12,7 +12,7 @@ open Ruma Ruma.Canonical
 
 /-- Structural induction with the hypotheses for the field / case lists collected as `∀ x ∈ list`. -/
 theorem Schema.ind {P : Schema → Prop}
-    (any : P .any) (str : ∀ n, P (.str n)) (int : ∀ lo hi, P (.int lo hi)) (bool : P .bool)
+    (any : P .any) (scalar : ∀ n, P (.scalar n))
     (arr : ∀ e, P e → P (.arr e))
     (map : ∀ ok s, P s → P (.map ok s))
     (obj : ∀ fields keep, (∀ f ∈ fields, P f.schema) → P (.obj fields keep))
@@ -22,10 +22,10 @@ theorem Schema.ind {P : Schema → Prop}
   intro s
   refine Schema.rec (motive_1 := P) (motive_2 := fun f => P f.schema) (motive_3 := fun c => P c.schema)
     (motive_4 := fun fs => ∀ f ∈ fs, P f.schema) (motive_5 := fun cs => ∀ c ∈ cs, P c.schema)
-    any str int bool arr map ?_ nullOr ?_ ?_ ?_ ?_ ?_ ?_ ?_ s
+    any scalar arr map ?_ nullOr ?_ ?_ ?_ ?_ ?_ ?_ ?_ s
   · intro fields keep h; exact obj fields keep h
   · intro tag cases h; exact tagged tag cases h
-  · intro _ _ s _ _ _ _ _ h; exact h
+  · intro _ _ s _ _ _ _ _ _ h; exact h
   · intro _ s h; exact h
   · intro f hf; cases hf
   · intro head tail h1 h2 f hf
@@ -41,29 +41,34 @@ theorem Schema.ind {P : Schema → Prop}
 /-! ### Non-mutual readings -/
 
 /-- What a field contributes, as a function of what the visitor found for it. -/
-def outOf (f : Field) : Look → Out
+def outOf (f : Field) (l : Look) : Out :=
+  if f.ghost then absentOut f.req f.dflt else
+  match l with
   | .dup => .fail
   | .absent => absentOut f.req f.dflt
   | .one v =>
     if f.nullAbsent && isNull v then absentOut f.req f.dflt else
     match project f.schema v with
-    | some nv => if f.skip nv then .omit else .emit nv
+    | some nv => if f.skip nv then .nothing else .emit nv
     | none => if f.lenient then absentOut f.req f.dflt else .fail
 
 def Field.look (f : Field) (o : Obj) : Look := ContentSchema.look f.name f.aliases o
 
 theorem projectField_eq (f : Field) (o : Obj) : projectField f o = outOf f (f.look o) := by
   cases f with
-  | mk name aliases s req dflt na len skip =>
+  | mk name aliases s req dflt na len skip ghost =>
     rw [projectField]
-    simp only [Field.look, Field.name, Field.aliases]
-    cases look name aliases o <;> rfl
+    simp only [Field.look, Field.name, Field.aliases, outOf, Field.ghost]
+    cases ghost
+    · simp only [Bool.false_eq_true, if_false]
+      cases look name aliases o <;> rfl
+    · rfl
 
 /-- Assemble the written fields; the first failure fails everything. -/
 def collect : List (Str × Out) → Option Obj
   | [] => some []
   | (_, .fail) :: _ => none
-  | (_, .omit) :: t => collect t
+  | (_, .nothing) :: t => collect t
   | (k, .emit v) :: t =>
     match collect t with
     | some out => some ((k, v) :: out)
@@ -114,6 +119,12 @@ theorem project_tagged (tag : Str) (cases : List Case) (o : Obj) :
   cases tagOf tag o with
   | none => rfl
   | some t => simp only [projectCases_eq]
+
+theorem project_nullOr (s : Schema) (v : JVal) (h : v ≠ .null) : project (.nullOr s) v = project s v := by
+  cases v <;> first | exact absurd rfl h | (rw [project]; intro e; cases e)
+
+theorem project_nullOr_null (s : Schema) : project (.nullOr s) .null = some .null := by
+  rw [project]
 
 /-! ### `allSome` -/
 
